@@ -330,8 +330,9 @@ pub fn gen_conflict(r: &mut Rng, svcs: &[Svc]) -> Option<String> {
     match r.below(6) {
         0 => o.port = o.port.wrapping_add(7),
         1 => o.props = vec![("other".to_string(), Some("1".to_string()))],
-        2 => o.ips = vec!["192.168.1.99".to_string()],
-        3 => o.ips = vec!["fe80::99".to_string()],
+        // the other claimant's address may lie in our subnet, in another one, or be link-local
+        2 => o.ips = vec![r.pick(&["192.168.1.99", "192.168.1.99", "10.9.9.9", "169.254.7.7"]).to_string()],
+        3 => o.ips = vec![r.pick(&["fe80::99", "fe80::99", "2001:db8::99"]).to_string()],
         4 => {
             o.port = o.port.wrapping_add(7);
             o.ips = vec!["192.168.1.99".to_string()];
